@@ -23,9 +23,9 @@ DESIGN_REF = "DESIGN.md section 7 (C16)"
 RULE = (
     "Exhaustive layer: histories = sequences of candidates (value in {0,1,2}, tag in {none,a,b}) of length 0..4 (quick) / 0..5 (thorough); each "
     "history x every composition into batches x MergePolicy {MIN,MAX} x RetentionPolicy {NONE,ANY,ALL} x target {standalone Entry, Table(List), "
-    "Table(Dict), Table(List,Dict), Table(Dict,Dict,List)} through proxy.update(*batch), and through table[key] = candidate for one-candidate "
+    "Table(Dict), Table(List,Dict), Table(Dict,Dict,List), Table(List,List,List), Table(List,List,Dict), Table(Dict,List,List)} through proxy.update(*batch), and through table[key] = candidate for one-candidate "
     "batches.  A handle obtained (and read) before the first write is kept and re-read after every batch, and in a second pass every other batch is written through it.  After every batch: value() == min/max of offered values (+-inf if none); infos() within the tags of optimal tagged candidates: all "
-    "of them (ALL), exactly one if any exists (ANY), none (NONE); len/iter/info()/is_infinite() consistent; untouched cells read +-inf, no tags, "
+    "of them (ALL), exactly one if any exists (ANY), none (NONE); len/iter/info()/is_infinite() consistent; every cell differing from the written one in exactly one coordinate (and one differing in all) reads +-inf, no tags, "
     "len 0.  At the end the entry is combined with entries built from two fixed histories and a random one: result == model optimum over the "
     "product of retained tags.  Random layer: Hypothesis histories up to 40 candidates over values -5..5 and 4 tags.  evaluations = histories x "
     "splits x policies x targets executed.  Non-trivial: the history contains an improving candidate after a tagged one, or a tie; distinct by "
@@ -34,14 +34,14 @@ RULE = (
 ASSUMPTIONS = ["finite candidate values; tags are truthy (non-empty strings or tuples)", "default-initialised entries"]
 BUDGET = {"quick": {"random": 3000}, "thorough": {"random": 60000}}
 FUZZ = {"quick": {"runs": 5000, "max_time": 60}, "thorough": {"runs": 300000, "max_time": 900}}
-EXHAUSTIVE_RULE = {"quick": "all histories of length <= 4 (7381) x all batch splits x 6 policies x 5 targets",
-                   "thorough": "all histories of length <= 5 (66430) x all batch splits x 6 policies x 5 targets"}
+EXHAUSTIVE_RULE = {"quick": "all histories of length <= 4 (7381) x all batch splits x 6 policies x 5 targets (8 up to length 3)",
+                   "thorough": "all histories of length <= 5 (66430) x all batch splits x 6 policies x 5 targets (8 up to length 3)"}
 EXHAUSTIVE_COMPLETE = False
 
 VALUES = (0, 1, 2)
 TAGS = (None, "a", "b")
 CANDS = [(v, t) for v in VALUES for t in TAGS]
-TARGETS = ("entry", "L", "D", "LD", "DDL")
+TARGETS = ("entry", "L", "D", "LD", "DDL", "LLL", "LLD", "DLL")
 
 
 def exhaustive(tier):
@@ -123,9 +123,15 @@ def make_target(target, merge, retention):
         e = Entry(mp, rp)
         return (lambda: e), None, None
     dims = {"L": (ListDimension(3),), "D": (DictDimension(),), "LD": (ListDimension(2), DictDimension()),
-            "DDL": (DictDimension(), DictDimension(), ListDimension(2))}[target]
-    key = {"L": (1,), "D": ("k",), "LD": (1, "x"), "DDL": ("p", ("q", 1), 0)}[target]
-    other = {"L": (2,), "D": ("other",), "LD": (0, "y"), "DDL": ("p", "zz", 1)}[target]
+            "DDL": (DictDimension(), DictDimension(), ListDimension(2)),
+            "LLL": (ListDimension(2), ListDimension(3), ListDimension(2)),
+            "LLD": (ListDimension(3), ListDimension(2), DictDimension()),
+            "DLL": (DictDimension(), ListDimension(2), ListDimension(2))}[target]
+    key = {"L": (1,), "D": ("k",), "LD": (1, "x"), "DDL": ("p", ("q", 1), 0), "LLL": (1, 2, 0), "LLD": (2, 0, "x"), "DLL": ("p", 1, 0)}[target]
+    # every cell that differs from the written one in exactly one coordinate (and one that differs in all) must stay unwritten
+    alt = {"L": [(0,), (2,)], "D": [("other",)], "LD": [(0, "x"), (1, "y"), (0, "y")], "DDL": [("zz", ("q", 1), 0), ("p", "zz", 0), ("p", ("q", 1), 1), ("p", "zz", 1)],
+           "LLL": [(0, 2, 0), (1, 0, 0), (1, 1, 0), (1, 2, 1), (0, 0, 1)], "LLD": [(0, 0, "x"), (1, 0, "x"), (2, 1, "x"), (2, 0, "y"), (0, 1, "y")],
+           "DLL": [("zz", 1, 0), ("p", 0, 0), ("p", 1, 1), ("zz", 0, 1)]}[target]
     t = Table(dims, mp, rp)
 
     def cell(k):
@@ -140,7 +146,7 @@ def make_target(target, merge, retention):
             x = x[part]
         x[key[-1]] = cand
 
-    return (lambda: cell(key)), set_one, (lambda: cell(other))
+    return (lambda: cell(key)), set_one, (lambda: [cell(k) for k in alt])
 
 
 def compositions(n):
@@ -182,7 +188,8 @@ def run_history(hist, cuts, merge, retention, target, use_set, others, comb, hel
         check_entry(get(), offered, merge, retention, f"after {len(offered)} candidates")
         check_entry(held, offered, merge, retention, f"held handle after {len(offered)} candidates")
         if untouched is not None:
-            check_entry(untouched(), [], merge, retention, "untouched cell")
+            for i, other_cell in enumerate(untouched()):
+                check_entry(other_cell, [], merge, retention, f"untouched cell #{i}")
     # combine
     a = get()
     for oh in others:
@@ -219,6 +226,8 @@ def check(case):
             for merge in ("MIN", "MAX"):
                 for retention in ("NONE", "ANY", "ALL"):
                     for target in TARGETS:
+                        if target in ("LLL", "LLD", "DLL") and len(hist) > 3:
+                            continue  # the three 3-dimensional list targets take the histories up to length 3 (all lengths in the random layer)
                         run_history(hist, cuts, merge, retention, target, False, FIXED_OTHERS, "sum")
                         evals += 1
                         if target != "entry" and len(hist) >= 2 and (merge, retention) in (("MIN", "ALL"), ("MAX", "ANY")):
